@@ -9,6 +9,7 @@ From Coq Require Import List Arith Bool Lia.
 From Coq Require Import ZArith NArith String.
 From PintV Require Import Common.Bytes Model.KeyLockKeys.
 From PintV Require Import Model.KeyLock Model.KeyLockCache Proofs.C14_lists Proofs.C14_lts Proofs.C14_props Proofs.C14_refine Proofs.C14_keys.
+From PintV Require Import Model.KeyLockTimed Proofs.C14_timed.
 From PintV Require Gen.C14.
 Import ListNotations.
 
@@ -213,6 +214,74 @@ Theorem C14_process_job_refines_lts : forall cf s w c now k a ttl v o st,
       same_cache (cache s1) (abs_cache (ps_cache st')).
 Proof. exact process_job_refines. Qed.
 Print Assumptions C14_process_job_refines_lts.
+
+(** ** Time.  The timed system (Model/KeyLockTimed.v) replaces "eviction of an arbitrary key set" by what
+    queryCache.gc() does at the current instant of an injected clock (TTL run out, or not read for maxStale); its
+    cache is the sequential queryCache model that is compared with the real cache on every run.  Every state it
+    reaches is a state of the untimed system, with the same cache content - so every theorem above holds of it. *)
+Theorem C14_timed_refines_untimed : forall tc ts, treachable tc ts ->
+  reachable (t_cf tc) (t_s ts) /\
+  (forall ck, lookup ck (cache (t_s ts)) =
+              option_map (fun e => Z.to_nat (ce_val e)) (centry_find (N.of_nat ck) (cs_entries (t_c ts)))) /\
+  keys_unique (t_c ts) /\
+  (forall a ts', tstep tc ts a = Some ts' -> (t_now ts <= t_now ts')%Z /\ run (t_cf tc) (t_s ts) (untimed tc ts a) = Some (t_s ts')).
+Proof.
+  intros tc ts R. pose proof (treachable_tinv tc ts R) as TI. split; [now apply treachable_reachable|].
+  split; [intros ck; now apply tinv_lookup|]. split; [apply (ti_unique _ TI)|].
+  intros a ts' H. split; [eapply tstep_clock; eauto|now apply tstep_untimed].
+Qed.
+Print Assumptions C14_timed_refines_untimed.
+
+(** "A successful answer is reused for its cache lifetime": in every reachable state of the timed system,
+    (1) a successful request stores its answer with expiry now + TTL(cache key) (none when TTL <= 0);
+    (2) while an answer is cached, a worker that looks the key up replies that value WITHOUT a request, and no
+        request for that key can be running (so the server is not asked again);
+    (3) whatever happens next, the entry keeps its value and its expiry (a hit only refreshes its last-read instant)
+        - except a gc that finds it evictable, i.e. past its expiry or not read for maxStale, which removes it;
+    (4) and a gc at an instant where the TTL has not run out and the last read is less than maxStale ago keeps it. *)
+Theorem C14_answer_reused_for_cache_lifetime : forall tc ts, side_cond (t_cf tc) -> treachable tc ts ->
+  (forall w c ck v ts', wst (t_s ts) w = WRunning (c, ck) -> tstep tc ts (TEnd w (ROk v)) = Some ts' ->
+     centry_find (N.of_nat ck) (cs_entries (t_c ts')) =
+     Some (mk_centry (Z.of_nat v) (if (0 <? t_ttl tc ck)%Z then Some (t_now ts + t_ttl tc ck)%Z else None) (t_now ts))) /\
+  (forall k e, centry_find k (cs_entries (t_c ts)) = Some e ->
+     (forall w c, wst (t_s ts) w = WTaken (c, N.to_nat k) ->
+        exists ts', tstep tc ts (TCheck w) = Some ts' /\ wst (t_s ts') w = WReply (c, N.to_nat k) (ROk (Z.to_nat (ce_val e)))) /\
+     (forall w c, wst (t_s ts) w <> WRunning (c, N.to_nat k)) /\
+     (forall a ts', tstep tc ts a = Some ts' ->
+        (exists e', centry_find k (cs_entries (t_c ts')) = Some e' /\ ce_val e' = ce_val e /\ ce_expires e' = ce_expires e /\
+                    (ce_lastget e' = ce_lastget e \/ ce_lastget e' = t_now ts)) \/
+        (a = TGc /\ evictable (t_max_stale tc) (t_now ts) e = true /\ centry_find k (cs_entries (t_c ts')) = None)) /\
+     ((forall x, ce_expires e = Some x -> (t_now ts <= x)%Z) -> (t_now ts - ce_lastget e < t_max_stale tc)%Z ->
+      forall ts', tstep tc ts TGc = Some ts' -> centry_find k (cs_entries (t_c ts')) = Some e)).
+Proof.
+  intros tc ts SC R. pose proof (treachable_tinv tc ts R) as TI.
+  pose proof (reachable_inv _ SC _ (treachable_reachable tc ts R)) as I.
+  split; [intros w c ck v ts' W H; eapply stored_entry; eauto|].
+  intros k e F. split; [intros w c W; eapply cached_entry_hit; eauto|].
+  split.
+  { intros w c W. pose proof (i_running_miss _ _ I w c (N.to_nat k) W) as M.
+    rewrite (tinv_lookup ts _ TI), N2Nat.id, F in M. discriminate. }
+  split; [intros a ts' H; eapply cached_entry_step; eauto|].
+  intros H1 H2 ts' H.
+  assert (Ev : evictable (t_max_stale tc) (t_now ts) e = false) by (apply evictable_false_iff; auto).
+  destruct (cached_entry_step tc ts TGc ts' k e SC I TI F H) as [(e' & F' & _)|(_ & K & _)]; [|congruence].
+  cbn [tstep] in H. destruct (step _ _ _); [|discriminate]. injection H as <-. cbn [t_c]. unfold cache_gc. cbn [cs_entries].
+  apply find_filter_keep; auto. cbn. now rewrite Ev.
+Qed.
+Print Assumptions C14_answer_reused_for_cache_lifetime.
+
+(** The invariants of the untimed system, read off the timed one (lock mutual exclusion, the in-flight bound, no
+    identical requests in flight, one successful run per cached key). *)
+Theorem C14_timed_invariants : forall tc ts, side_cond (t_cf tc) -> treachable tc ts ->
+  NoDup (held (t_s ts)) /\ List.length (inflight (t_cf tc) (t_s ts)) <= pool (t_cf tc) /\
+  NoDup (inflight (t_cf tc) (t_s ts)) /\ NoDup (map fst (served (t_s ts))) /\ cache (t_s ts) = served (t_s ts).
+Proof.
+  intros tc ts SC R. pose proof (treachable_reachable tc ts R) as R'.
+  destruct (C14_lock_mutex _ _ R') as (_ & A & _). destruct (C14_no_identical_inflight _ _ SC R') as (B & _).
+  destruct (C14_one_run_per_lifetime _ _ SC R') as (C & D & _).
+  repeat split; auto. now apply C14_inflight_bound.
+Qed.
+Print Assumptions C14_timed_invariants.
 
 (** ** Non-vacuity: three callers (two asking the same question under the same lock key, one another
     question), two workers; the second caller of the shared question is served from the cache. *)
